@@ -27,14 +27,17 @@ OBS_INVS = ["NoDupRows", "HeaderFirstOnce", "RowsAreSubjects", "RowsAppendOnly",
 # --------------------------------------------------------------------------------------
 # running histories (in parallel worker processes; each history forks its own sessions)
 # --------------------------------------------------------------------------------------
-JOB_TIMEOUT_S = 420
+JOB_TIMEOUT_S = 240
 JOB_TIMEOUTS: list = []      # jobs whose history (incl. the uncontrolled reference run) never came back
+ABANDON = [False]            # set after repeated job timeouts: the code under test wedges the interpreters, no more histories
 
 
 def _run_history(job):
     """one history, bounded in time: the reference run and the sessions execute the real code, which may block
     forever where no wrapper sees it (SIGALRM in the worker's main thread)"""
     from .drive import CallTimeout, time_limit
+    if ABANDON[0]:
+        return {"job_timeout": True, "skipped": True, "tag": job[3], "scn": job[0], "sessions": job[1]}
     try:
         with time_limit(JOB_TIMEOUT_S):
             return _run_history_inner(job)
@@ -104,6 +107,8 @@ def run_histories(jobs, workers=14):
     import os
     import signal
     out = []
+    if ABANDON[0] or not jobs:
+        return out
     ex = cf.ProcessPoolExecutor(max_workers=workers)
     futs = [ex.submit(_run_history, j) for j in jobs]
     n_to = 0
@@ -114,6 +119,7 @@ def run_histories(jobs, workers=14):
                 JOB_TIMEOUTS.append(r)
                 n_to += 1
                 if n_to >= 3:
+                    ABANDON[0] = True
                     break
             else:
                 out.append(r)
@@ -368,7 +374,9 @@ def preemption_schedules(sc, root, limit, rng):
     jobs = []
     base = _run_history((sc, [{"policy": ("seq",), "kill_at": None}], str(root / "base"), "dfs-base"))
     if base.get("job_timeout"):
-        JOB_TIMEOUTS.append(base)
+        if not base.get("skipped"):
+            JOB_TIMEOUTS.append(base)
+            ABANDON[0] = True
         return [], []
     sched = base["schedule"]
     ops = base["ops"]
@@ -416,7 +424,7 @@ def stress_uncontrolled(v: Verdict, prop: str, root: Path, rounds: int, modes=("
             proc = subprocess.Popen([sys.executable, "-m", "harness.aggstress", mode, str(d), ",".join(names)], cwd=str(common.ROOT),
                                     stdout=subprocess.PIPE, stderr=subprocess.PIPE, text=True, start_new_session=True)
             try:
-                out, err = proc.communicate(timeout=240)
+                out, err = proc.communicate(timeout=150)
             except subprocess.TimeoutExpired:
                 # the real code did not come back: "no call blocks forever" (a normal run takes seconds)
                 try:
@@ -425,7 +433,7 @@ def stress_uncontrolled(v: Verdict, prop: str, root: Path, rounds: int, modes=("
                     pass
                 proc.communicate()
                 v.violation("NoCallBlocksForever", {"stress_mode": mode}, {"kind": "uncontrolled-stress", "mode": mode, "names": names},
-                            what=f"uncontrolled {mode} run of 8 evaluate() calls did not finish within 240 s")
+                            what=f"uncontrolled {mode} run of 8 evaluate() calls did not finish within 150 s")
                 shutil.rmtree(d, ignore_errors=True)
                 continue
             if proc.returncode != 0:
@@ -593,7 +601,9 @@ def check_C17(tier: str, v: Verdict):
         for sc in C17_SCENARIOS + SIBLING_SCENARIOS[:1]:
             base = _run_history((sc, [{"policy": ("seq",), "kill_at": None}], str(root / "probe"), "uninterrupted"))
             if base.get("job_timeout"):
-                JOB_TIMEOUTS.append(base)
+                if not base.get("skipped"):
+                    JOB_TIMEOUTS.append(base)
+                    ABANDON[0] = True
                 continue
             results.append(base)
             n = base["nevents"]
